@@ -14,11 +14,10 @@ open GoawkModel GoawkModel.C08
 
 /-- **Round trip.** Whatever a sequence of `print` statements writes in CSV/TSV output mode for carriage-return-free field
 lists is read back, by the input mode with the same separator, as exactly those field lists: fields may contain separators,
-quotes, line feeds, leading/trailing blanks, be empty, be invalid UTF-8. Excluded are only the record that is one empty field
-(written as an empty line — `csv_round_trip_single_empty_fails`) and an output that begins with the three BOM bytes
-(`csv_round_trip_bom_fails`). -/
+quotes, line feeds, leading/trailing blanks, be empty (also the record that is one empty field, written as `""`), be invalid
+UTF-8. Excluded is only an output that begins with the three BOM bytes (`csv_round_trip_bom_fails`, finding G08-3). -/
 theorem csv_round_trip (sep : Bytes) (hs : validSep sep = true) (fss : List (List Bytes))
-    (hne : ∀ fs ∈ fss, fs ≠ [] ∧ fs ≠ [[]]) (hcr : ∀ fs ∈ fss, ∀ f ∈ fs, 13 ∉ f)
+    (hne : ∀ fs ∈ fss, fs ≠ []) (hcr : ∀ fs ∈ fss, ∀ f ∈ fs, 13 ∉ f)
     (hb : bom.isPrefixOf (writeAll sep fss) = false) :
     csvRead sep (writeAll sep fss) = fss := by
   have := csvRows_writeAll (cfg := { sep := sep }) hs fss hne hcr (Or.inl rfl) hb
@@ -26,42 +25,43 @@ theorem csv_round_trip (sep : Bytes) (hs : validSep sep = true) (fss : List (Lis
 
 /-- one `print`: `csvRead sep (csvWrite sep fs) = [fs]` -/
 theorem csv_round_trip_one (sep : Bytes) (hs : validSep sep = true) (fs : List Bytes)
-    (h1 : fs ≠ []) (h2 : fs ≠ [[]]) (hcr : ∀ f ∈ fs, 13 ∉ f) (hb : bom.isPrefixOf (csvWrite sep fs) = false) :
+    (h1 : fs ≠ []) (hcr : ∀ f ∈ fs, 13 ∉ f) (hb : bom.isPrefixOf (csvWrite sep fs) = false) :
     csvRead sep (csvWrite sep fs) = [fs] := by
-  have := csv_round_trip sep hs [fs] (by simpa using ⟨h1, h2⟩) (by simpa using hcr) (by simpa [writeAll] using hb)
+  have := csv_round_trip sep hs [fs] (by simpa using h1) (by simpa using hcr) (by simpa [writeAll] using hb)
   simpa [writeAll] using this
 
 /-- the same with a comment character configured on the input side, provided no written record begins with it -/
 theorem csv_round_trip_comment (cfg : Cfg) (hh : cfg.header = false) (hs : validSep cfg.sep = true) (fss : List (List Bytes))
-    (hne : ∀ fs ∈ fss, fs ≠ [] ∧ fs ≠ [[]]) (hcr : ∀ fs ∈ fss, ∀ f ∈ fs, 13 ∉ f) (hc : NoCommentStart cfg fss)
+    (hne : ∀ fs ∈ fss, fs ≠ []) (hcr : ∀ fs ∈ fss, ∀ f ∈ fs, 13 ∉ f) (hc : NoCommentStart cfg fss)
     (hb : bom.isPrefixOf (writeAll cfg.sep fss) = false) :
     (csvRecords cfg (writeAll cfg.sep fss)).map Prod.fst = fss := by
   simpa [csvRecords, hh] using csvRows_writeAll hs fss hne hcr hc hb
 
 /-- **`$0` rebuild.** In CSV/TSV output mode the `$0` rebuilt from assigned fields (`joinFields`), re-parsed by the input mode
 with the same separator (assignment to `$0`, `split(s, a)`), yields the assigned fields. -/
-theorem joinFields_round_trip (cfg : Cfg) (hs : validSep cfg.sep = true) (fs : List Bytes) (h1 : fs ≠ []) (h2 : fs ≠ [[]])
+theorem joinFields_round_trip (cfg : Cfg) (hs : validSep cfg.sep = true) (fs : List Bytes) (h1 : fs ≠ [])
     (hcr : ∀ f ∈ fs, 13 ∉ f) (hc : cfg.comment = [] ∨ cfg.comment.isPrefixOf (joinFields cfg.sep fs) = false)
     (hb : bom.isPrefixOf (joinFields cfg.sep fs) = false) :
     reparse cfg (joinFields cfg.sep fs) = fs :=
-  reparse_joinFields hs fs h1 h2 hcr hc hb
+  reparse_joinFields hs fs h1 hcr hc hb
 
-/-- The property as it is quantified ("all field-value lists … single empty field"): every non-empty list of CR-free fields. -/
+/-- The property as it is quantified ("all field-value lists"): every non-empty list of CR-free fields, no side condition. -/
 def RoundTripFull : Prop :=
   ∀ (sep : Bytes) (fs : List Bytes), validSep sep = true → fs ≠ [] → (∀ f ∈ fs, 13 ∉ f) → csvRead sep (csvWrite sep fs) = [fs]
 
-/-- It is false of the code as it stands: the single empty field is written as an empty line, which the reader skips
-(finding G08-2; replayed on the real code by the harness corpus). -/
-theorem csv_round_trip_single_empty_fails : ¬ RoundTripFull := by
-  intro h
-  have := h [44] [[]] (by decide) (by simp) (by simp)
-  revert this
-  decide
-
-/-- … and a first field that begins with the BOM bytes is written unquoted and loses them at the start of the input
-(finding G08-3). -/
+/-- A first field that begins with the BOM bytes is written unquoted and loses them at the start of the input
+(finding G08-3, recorded; replayed on the real code by the harness corpus). -/
 theorem csv_round_trip_bom_fails :
     csvRead [44] (csvWrite [44] [[0xEF, 0xBB, 0xBF, 97], [98]]) = [[[97], [98]]] := by decide
+
+/-- … so the unconditional statement is false of the code as it stands; `csv_round_trip_one` is it with the one side
+condition "the output does not begin with the BOM bytes". -/
+theorem csv_round_trip_full_fails : ¬ RoundTripFull := by
+  intro h
+  have := h [44] [[0xEF, 0xBB, 0xBF, 97], [98]] (by decide) (by simp) (by decide)
+  rw [csv_round_trip_bom_fails] at this
+  revert this
+  decide
 
 /-- the exclusion of carriage returns is needed: `\r\n` inside a quoted field is read back as `\n` -/
 theorem csv_round_trip_needs_cr_free :
@@ -78,13 +78,21 @@ example : csvRead [44] (writeAll [44] [[[97, 44, 98], [99, 34, 100], [101, 10, 1
     [[[97, 44, 98], [99, 34, 100], [101, 10, 102], [32, 103], [], [92, 46]], [[], []]] :=
   csv_round_trip [44] (by decide) _ (by decide) (by decide) (by decide)
 
+-- the single empty field (repaired G08-2) and records made of empty fields only
+example : csvWrite [44] [[]] = [34, 34, 10] := by decide
+example : csvRead [44] (writeAll [44] [[[]], [[], []], [[]]]) = [[[]], [[], []], [[]]] :=
+  csv_round_trip [44] (by decide) _ (by decide) (by decide) (by decide)
+
 -- a multi-byte separator whose lead byte alone and continuation byte alone occur in fields
 example : csvRead [0xC3, 0xA9] (csvWrite [0xC3, 0xA9] [[0xC3], [0xA9], [97, 0xC3, 0xA9, 98]]) =
     [[[0xC3], [0xA9], [97, 0xC3, 0xA9, 98]]] :=
-  csv_round_trip_one _ (by decide) _ (by decide) (by decide) (by decide) (by decide)
+  csv_round_trip_one _ (by decide) _ (by decide) (by decide) (by decide)
 
 example : reparse { sep := [44] } (joinFields [44] [[97, 34], [], [10]]) = [[97, 34], [], [10]] :=
-  joinFields_round_trip _ (by decide) _ (by decide) (by decide) (by decide) (by decide) (by decide)
+  joinFields_round_trip _ (by decide) _ (by decide) (by decide) (by decide) (by decide)
+
+example : reparse { sep := [44] } (joinFields [44] [[]]) = [[]] :=
+  joinFields_round_trip _ (by decide) _ (by decide) (by decide) (by decide) (by decide)
 
 -- the reader on hand-written input: lenient quotes, doubled quotes, CRLF, comment and blank lines, BOM, header
 example : csvRecords { sep := [44], comment := [35], header := true }
@@ -115,19 +123,15 @@ def ChunkIndependent : Prop :=
   ∀ (cfg : Cfg) (chunks : List Bytes), validSep cfg.sep = true → (∀ c ∈ chunks, c ≠ []) →
     csvScanAll cfg false chunks = { names := csvHeader cfg chunks.flatten, recs := csvRecords cfg chunks.flatten }
 
-/-- the same for every legal `io.Reader`, including one whose last `Read` returns data together with `io.EOF` -/
+/-- the same for every legal `io.Reader`, including one whose last `Read` returns data together with `io.EOF` (this failed
+before the repair of G08-1; now, like `ChunkIndependent`, it is stated and checked by correspondence and oracle, not proved) -/
 def ChunkIndependentAnyReader : Prop :=
   ∀ (cfg : Cfg) (chunks : List Bytes) (eofWith : Bool), validSep cfg.sep = true → (∀ c ∈ chunks, c ≠ []) →
     csvScanAll cfg eofWith chunks = { names := csvHeader cfg chunks.flatten, recs := csvRecords cfg chunks.flatten }
 
-/-- … which is false of the code as it stands: in header mode the header row is answered with "advance, no token", and
-`bufio.Scanner` stops on that once EOF is known, so every data row is lost (finding G08-1; replayed on the real code by the
-harness corpus with input `h,i\na,b\n` delivered in one `Read` that also returns `io.EOF`). -/
-theorem csv_chunk_independent_any_reader_fails : ¬ ChunkIndependentAnyReader := by
-  intro h
-  have := h { sep := [44], header := true } [[104, 44, 105, 10, 97, 44, 98, 10]] true (by decide) (by decide)
-  revert this
-  decide
+-- the former witness of G08-1 (repaired): header row and data row delivered in one `Read` that also returns `io.EOF`
+example : csvScanAll { sep := [44], header := true } true [[104, 44, 105, 10, 97, 44, 98, 10]] =
+    { names := some [[104], [105]], recs := [([[97], [98]], [97, 44, 98])] } := by decide
 
 -- non-vacuity / sanity of the scanner model: a BOM, a quoted field with CRLF inside and a header row, cut inside the BOM,
 -- inside the quoted field and inside the CRLF, equals the specification reader on the whole input
